@@ -253,4 +253,4 @@ pub fn c18c_peek_indentation_5() { indentation::<5>() }
 #[kani::unwind(10)]
 #[kani::stub(std::hash::RandomState::new, fixed_random_state)]
 #[kani::stub(alloc::fmt::format, fmt_stub)]
-pub fn c18c_peek_indentation_7() { indentation::<7>() }
+pub fn c18c_peek_indentation_6() { indentation::<6>() }
